@@ -12,7 +12,7 @@ class C06(Prop):
     rule = ("every description of every table (ecoMAX P/I, mixer P/I, thermostat, control, profile) x triples {(v,0,max), (v,10,20), inverted "
             "(v,20,10), v outside its own range} x requested raw in {min-1, min, max, max+1, v, interior} rendered as int, as the displayed float, "
             "as displayed float +/- 1e-7, as bool / 'on' / 'off' for switches; observed: ValueError or not, queued set requests and their raw "
-            "value, held triple right after the call.  The raw encoding of a float request is computed by the Coq model (vm_compute, PrimFloat).  "
+            "value, held triple right after the call; sessions of several calls, and calls with out-of-range values arriving while an in-range call is pending.  The raw encoding of a float request is computed by the Coq model (vm_compute, PrimFloat).  "
             "Non-trivial = request differs from the held value; distinct by case content.")
     assumptions = ["non-finite floats have no raw encoding (int(inf) raises OverflowError) and are outside the domain",
                    "schedule parameters (table 5) are exercised under C07/C18 where their device context exists"]
@@ -78,6 +78,20 @@ class C06(Prop):
                 req2 = nhi + 1
             cases.append({"kind": "session", "tbl": tbl, "idx": idx, "triple": [v, lo, hi],
                           "calls": [[req1, retries, evs], [req2, 1, []]]})
+        # overlapping calls: while an in-range call is pending (between its retransmissions), further set() calls with values
+        # outside the range arrive on the same parameter: each must raise, transmit nothing, and leave the pending call's
+        # retransmissions carrying the value that was accepted
+        for _ in range(80 if tier == "quick" else 1500):
+            tbl, idx = rng.choice(plain)
+            v = rng.randrange(20, 200)
+            lo, hi = rng.randrange(0, v + 1), rng.randrange(v, 255)
+            req = rng.choice([x for x in (lo, hi, min(hi, v + 3), max(lo, v - 3)) if x != v] or [v])
+            retries = rng.choice([2, 3, 4])
+            evs = []
+            for _ in range(rng.randrange(1, 6)):
+                evs.append([0] if rng.random() < 0.5 else [2, rng.choice([hi + 1, 255, lo - 1 if lo > 0 else hi + 1, hi + rng.randrange(1, 50)])])
+            evs += [[0]] * 2
+            cases.append({"kind": "overlap", "tbl": tbl, "idx": idx, "triple": [v, lo, hi], "req": req, "retries": retries, "events": evs})
         return cases
 
     def _pyvalue(self, c):
@@ -97,6 +111,8 @@ class C06(Prop):
         return x
 
     def run_impl(self, c):
+        if c["kind"] == "overlap":
+            return vloop.run(param_impl.run_overlap, c["tbl"], c["idx"], c["triple"], c["req"], c["retries"], c["events"])
         if c["kind"] == "session":
             return vloop.run(param_impl.run_session, c["tbl"], c["idx"], c["triple"], c["calls"], False)
         outs, after, after_call = vloop.run(param_impl.run_set_call, c["tbl"], c["idx"], c["triple"], self._pyvalue(c), 2, 5.0, [],
@@ -110,8 +126,8 @@ class C06(Prop):
         exprs, idx = [], []
         reqs = [None] * len(cases)
         for i, c in enumerate(cases):
-            if c["kind"] == "session":
-                reqs[i] = "session"
+            if c["kind"] in ("session", "overlap"):
+                reqs[i] = c["kind"]
                 continue
             v = self._pyvalue(c)
             if c["kind"].startswith("switch"):
@@ -133,6 +149,19 @@ class C06(Prop):
         for c, r, q in zip(cases, res, reqs):
             if q is None:
                 out.append(None)
+            elif q == "overlap":
+                # the intruding calls are no-ops of the model: the pending call sees only the timer expiries
+                expiries = [ev for ev in c["events"] if ev[0] == 0]
+                m = model.call("run_set", [[False] * 8, c["triple"], c["req"], c["retries"], expiries])
+                tx = [[o[1] for o in pt if o[0] == 0] for pt in m[0]]
+                pts, k = [tx[0]], 1
+                for ev in c["events"]:
+                    if ev[0] == 0:
+                        pts.append(tx[k])
+                        k += 1
+                    else:
+                        pts.append([])
+                out.append([pts, [["ValueError"] for ev in c["events"] if ev[0] == 2], None])
             elif q == "session":
                 held = c["triple"]
                 sess = []
@@ -149,6 +178,8 @@ class C06(Prop):
     def obs(self, c, b):
         if b is None:
             return None
+        if c["kind"] == "overlap":
+            return [b[0], b[1]]
         if c["kind"] == "session":
             return [[[[o for o in pt if o[0] in (0, 3)] for pt in call[0]], call[1], call[2]] for call in b]
         # the optimistic local value is part of the observation; the return value of an in-range call is C08's business
@@ -160,6 +191,13 @@ class C06(Prop):
         res = [True] * len(cases)
         for i, (c, b, q) in enumerate(zip(cases, behaviours, reqs)):
             if q is None:
+                continue
+            if q == "overlap":
+                pts, intr, held = b
+                lo, hi = c["triple"][1], c["triple"][2]
+                res[i] = (all(x == c["req"] and lo <= x <= hi for pt in pts for x in pt) and all(r == ["ValueError"] for r in intr)
+                          and all(pts[k + 1] == [] for k, ev in enumerate(c["events"]) if ev[0] == 2)
+                          and held[1:] == [lo, hi] and lo <= held[0] <= hi)
                 continue
             if q == "session":
                 # each call is judged against the bounds the controller LAST REPORTED before it (ground truth of the
